@@ -82,6 +82,11 @@ type inst struct {
 	dirtyVer bool   // a versioned write happened since the last open
 	pending  string
 	pendDsc  string
+	path     []string
+	oos      bool   // an out-of-scope divergence was seen: stop exploring below this state
+	control  bool   // this instance is a control run (never starts another control run)
+	readAt   uint64 // control run: read at this version (the read ts the real run had) instead of a fresh transaction's
+	lastRead uint64 // read ts used by the latest point-read check
 }
 
 var dirSeq int
@@ -133,7 +138,7 @@ func isClient(op string) bool {
 }
 
 func (in *inst) Enabled() []string {
-	if in.pending != "" || in.h == nil || in.h.DB == nil {
+	if in.pending != "" || in.oos || in.h == nil || in.h.DB == nil {
 		return nil
 	}
 	var ops []string
@@ -277,6 +282,7 @@ func (in *inst) fail(sig, format string, a ...any) {
 }
 
 func (in *inst) Apply(op string) (bool, error) {
+	in.path = append(in.path, op)
 	if op == "reopen" {
 		return in.reopen()
 	}
@@ -504,12 +510,83 @@ func (in *inst) reopen() (bool, error) {
 
 // Check: the stored versions equal the model (absolute oracle), and point reads through a
 // new transaction / the plain API return the newest live version.
+// outOfScope counts divergences from the absolute model that are not caused by a reopen
+// (same divergence with every "reopen" replaced by flushing the queued immutables, or no reopen at all):
+// they are the subject of C01/C02/C06/C07, not of C12.
+var outOfScope = map[string]int64{}
+
+func absoluteClass(sig string) bool {
+	for _, p := range []string{"stored-version-", "written-version-missing", "read-lost", "read-stale", "read-resurrected"} {
+		if strings.HasPrefix(sig, p) {
+			return true
+		}
+	}
+	return false
+}
+
+func stripCtx(sig string) string {
+	sig = strings.Replace(sig, " after-reopen", "", 1)
+	if i := strings.Index(sig, " in="); i >= 0 {
+		sig = sig[:i]
+	}
+	return sig
+}
+
 func (in *inst) Check() (string, string) {
 	sig, desc := in.check()
+	if sig != "" && absoluteClass(sig) && !in.control {
+		// C12 speaks about close+reopen. A divergence from the absolute model is attributed
+		// to the reopen only if the same history with "flush every queued immutable" in place
+		// of every reopen (the placement a clean close produces, without closing) does NOT show it.
+		same := in.nReopen == 0
+		if !same {
+			same = in.controlShows(stripCtx(sig))
+		}
+		if same {
+			outOfScope[stripCtx(sig)]++
+			in.oos = true
+			return "", ""
+		}
+		sig += " (absent without the reopen)"
+	}
 	if sig != "" && in.p.Cfg.Engine == "art" {
 		sig += " engine=art"
 	}
 	return sig, desc
+}
+
+// controlShows replays the path without the reopens on a fresh DB and reports whether
+// the absolute oracle fails there in the same way.
+func (in *inst) controlShows(want string) bool {
+	pp := *in.p
+	pp.MaxClient, pp.MaxMaint, pp.MaxReopen = 99, 99, 99
+	c := newInst(&pp).(*inst)
+	c.control = true
+	c.readAt = in.lastRead
+	defer c.Close()
+	for _, op := range in.path {
+		if op == "reopen" {
+			// what a clean close does to the placement: queued immutables are flushed, the
+			// active memtable stays (it is recovered from the WAL)
+			for {
+				did, err := c.h.FlushOne()
+				if err != nil {
+					return false
+				}
+				if !did {
+					break
+				}
+			}
+			continue
+		}
+		if _, err := c.Apply(op); err != nil {
+			return false
+		}
+		if sig, _ := c.check(); sig != "" {
+			return stripCtx(sig) == want
+		}
+	}
+	return false
 }
 
 func (in *inst) check() (string, string) {
@@ -544,15 +621,21 @@ func (in *inst) check() (string, string) {
 	// point reads
 	db := in.h.DB
 	var rt *NoKV.Txn
+	readTs := uint64(math.MaxUint64)
 	if !in.p.Plain {
 		rt = db.NewTransaction(false)
 		defer rt.Discard()
+		readTs = rt.ReadTs()
+		if in.readAt != 0 {
+			readTs = in.readAt
+		}
+		in.lastRead = readTs
 	}
 	for _, key := range in.keys {
 		var best *mval
 		var bv uint64
 		for k, m := range in.model {
-			if k.key == key && (best == nil || k.ver >= bv) && (in.p.Plain || k.ver <= rt.ReadTs()) {
+			if k.key == key && (best == nil || k.ver >= bv) && (in.p.Plain || k.ver <= readTs) {
 				mm := m
 				best, bv = &mm, k.ver
 			}
@@ -564,6 +647,16 @@ func (in *inst) check() (string, string) {
 			var e *kv.Entry
 			if e, err = db.Get([]byte(key)); err == nil {
 				got = e.Value
+			}
+		} else if in.readAt != 0 {
+			// control run: the same question ("newest version <= ts") asked at the real run's read ts
+			var e *kv.Entry
+			if e, err = db.GetVersionedEntry(kv.CFDefault, []byte(key), readTs); err == nil {
+				if e.Meta&kv.BitDelete != 0 || e.ExpiresAt == 1 {
+					err = utils.ErrKeyNotFound
+				} else {
+					got = e.Value
+				}
 			}
 		} else {
 			var it *NoKV.Item
@@ -673,6 +766,9 @@ func main() {
 		for k, v := range opCount {
 			p.Add("op:"+k, v)
 		}
+		for k, v := range outOfScope {
+			p.Add("oos:"+k, v)
+		}
 	})
 	states := total.Card("states")
 	r.RequireOutcomes(states, 10)
@@ -681,9 +777,13 @@ func main() {
 		names = append(names, fmt.Sprintf("%s(client<=%d,maint<=%d,reopen<=%d,depth<=%d,ops=%v)", c.P.Name, c.P.MaxClient, c.P.MaxMaint, c.P.MaxReopen, c.Depth, c.P.ClientOps))
 	}
 	ops := map[string]int64{}
+	oos := map[string]int64{}
 	for k, v := range total.Counters {
 		if strings.HasPrefix(k, "op:") {
 			ops[k[3:]] = v
+		}
+		if strings.HasPrefix(k, "oos:") {
+			oos[k[4:]] = v
 		}
 	}
 	r.Finish(vr.Coverage{
@@ -699,12 +799,14 @@ func main() {
 		Outcomes:    states,
 		Bounds:      map[string]any{"configs": names, "quick": r.Quick()},
 		Extra: map[string]any{"pruned_by_state_key": total.Counters["pruned"], "noop_cut": total.Counters["cut_noop"], "replayed_steps": total.Counters["replayed_steps"],
-			"max_depth": total.Counters["max_depth"], "ops_applied": ops},
+			"max_depth": total.Counters["max_depth"], "ops_applied": ops,
+			"divergences_not_caused_by_reopen_(out_of_scope,_branch_cut)": oos},
 		Assumptions: []string{
 			"plain (max-version) writes and transactional/versioned writes are explored in separate databases: the code base forbids mixing them (db.go: 'Non-transactional API: do not mix with MVCC/Txn writes'), and the commit-version requirement is stated for databases used through the transactional API",
 			"the close is the harness's clean close: the flush gate is opened so queued flushes complete as in an unharnessed DB; background compaction stays paused and is driven by the explorer",
 			"the engine-internal key !NoKV!discard is not user data and is ignored; expiry uses absolute timestamps 1 and 2^40",
 			"traces_validated_against_impl counts fresh-instance replays of path prefixes",
+			"a divergence of stored versions / point reads from the absolute model is reported only when a control run of the same history with 'flush every queued immutable memtable' (what a clean close does to the placement) in place of every reopen does not show it (divergences that exist without any reopen belong to C01/C02/C06/C07; they are counted in the evidence and the branch is cut); the before-close/after-open scan comparison and the commit-version requirement are unconditional",
 		},
 	})
 }
